@@ -127,6 +127,20 @@ CHECKS["C01"] = dict(
          "disagreement outside them is a VIOLATION. Not transcribed yet: $ :$ a$b :- :@. Reals restricted to exact rationals.",
     design_ref="DESIGN.md section 5 C01")
 
+CHECKS["C02"] = dict(
+    technique="executable TLA+ definitional expansion of the adverbs (KgAdverbs.tla: one generic fold / scan / map over Ap1/Ap2 of "
+              "the verb) evaluated by TLC over adverb x verb x operand cases (KgAdvCases.tla); each case replayed as source "
+              "into KlongInterpreter and compared structurally",
+    text="The specification knows no shortcut: f/a is the left fold of plain applications, f\\a its prefixes, f'a the map, and so on "
+         "for 15 adverb forms incl. the atom / single-element / empty / string cases and two-adverb chains; verbs are operators, "
+         "lambdas (non-commutative, non-associative), a projection and Python callables. TLC evaluates ~9k (thorough ~25k) "
+         "cases; the implementation, with all its operator shortcuts (ufunc.reduce/accumulate ...), must agree on each.",
+    note="Trusted: TLC, the transcription, canon/render. Open findings F-C02-* (matched by form / verb / operand class / difference "
+         "class) cover the listed deviations; anything else is a VIOLATION. While / Scan-While and dictionary operands are not "
+         "enumerated yet; a list as neutral element of a f/b, a f\\b is outside the judged domain (the reference gives two "
+         "non-equivalent descriptions).",
+    design_ref="DESIGN.md section 5 C02")
+
 NOT_YET = {}
 
 
